@@ -274,10 +274,22 @@ func c05Oracle(p c05Params) func(tr *mc.Trace) []h.Violation {
 			}
 			return sends[id]
 		}
+		// a delivery was parked: the connection server spawned a goroutine while handling a
+		// tunnelling request, i.e. its next own event is the transmission of the acknowledgement
+		// (recognised by that shape, not by the name of the library function)
 		overflow := false
+		spawnBy := map[int]bool{}
 		for _, e := range tr.Log {
-			if sp, ok := e.V.(mc.Spawned); ok && strings.Contains(sp.Site, "pushInbound") {
-				overflow = true
+			switch x := e.V.(type) {
+			case mc.Spawned:
+				if strings.HasPrefix(x.Site, "tunnel.go:") {
+					spawnBy[e.G] = true
+				}
+			case fakesock.Sent:
+				if _, isAck := x.Svc.(*knxnet.TunnelRes); isAck && spawnBy[e.G] {
+					overflow = true
+				}
+				spawnBy[e.G] = false
 			}
 		}
 		for _, e := range tr.Log {
